@@ -28,7 +28,7 @@ func TestRegress(t *testing.T) { harness.RunRegress(t) }
 const kfFC17 = "fc17-tcp-truncated-reply-parsed"
 
 // Fault kinds.
-var faults = []string{"stall", "eof", "eof-with-bytes", "ioerr", "ioerr-with-bytes", "oversize", "write", "cancel-before", "cancel-in-read", "deadline-before", "deadline-in-stall", "not-connected", "nil-request"}
+var faults = []string{"stall", "eof", "eof-with-bytes", "ioerr", "ioerr-with-bytes", "oversize", "oversize-frame", "write", "cancel-before", "cancel-in-read", "deadline-before", "deadline-in-stall", "not-connected", "nil-request"}
 
 type faultCase struct {
 	Kind    string   `json:"kind"`
@@ -41,6 +41,30 @@ type faultCase struct {
 	Fault   string `json:"fault"`
 	// Prior: kind of an earlier request call on the same client ("" none): success | stall | partial-stall | eof | ioerr
 	Prior string `json:"prior,omitempty"`
+	// Over (fault oversize-frame): the transport delivers a structurally well-formed register reply (consistent byte count,
+	// MBAP length / CRC) that is Over bytes longer than the largest legal ADU of the framing
+	Over int `json:"over,omitempty"`
+}
+
+// overFrame builds the reply of the oversize-frame fault.
+func overFrame(f spec.Framing, r spec.Req, over int, seed uint64) []byte {
+	fc := r.FC
+	switch fc {
+	case 1, 2, 3, 4, 23:
+	default:
+		fc = 3
+	}
+	overhead := 9
+	if f == spec.RTU {
+		overhead = 5
+	}
+	bc := spec.MaxADU(f) + over - overhead
+	extra := 0
+	if bc > 255 {
+		extra, bc = bc-255, 255
+	}
+	fr := spec.EncodeResponse(f, spec.Resp{FC: fc, Unit: r.Unit, Tx: r.Tx, Data: harness.Bytes(seed, bc)})
+	return append(fr, harness.Bytes(seed+1, extra)...)
 }
 
 type prep struct {
@@ -98,6 +122,15 @@ func prepare(c faultCase) (prep, error) {
 		p.faultIdx = len(ev)
 		stream = append(stream[:pre:pre], bytes.Repeat([]byte{0x5A}, 400)...)
 		ev = append(ev, xport.Event{Kind: "data", N: 400})
+	case "oversize-frame":
+		over := c.Over
+		if over < 1 {
+			over = 1
+		}
+		stream = overFrame(f, c.Req, over, c.DevSeed)
+		// the first Prefix bytes arrive as generated, the rest of the frame in one more read
+		p.faultIdx = len(ev)
+		ev = append(ev, xport.Event{Kind: "data", N: len(stream) - pre})
 	case "write":
 		sc.WriteErr = true
 	case "cancel-before":
@@ -202,12 +235,21 @@ func judge(c faultCase, p prep, o cli.Outcome) harness.Result {
 		if !isCE || !errors.Is(o.Err, &modbus.ErrPacketTooLong) {
 			return harness.Fail(desc+"oversize reply not reported as ErrPacketTooLong: %T %v", o.Err, o.Err)
 		}
+	case "oversize-frame":
+		// success was excluded above; the too-long classification is required once the client has taken more than a frame can hold
+		labels = append(labels, fmt.Sprintf("over-by:%d", min(c.Over, 5)))
+		if o.Consumed > spec.MaxADU(cli.FramingOf(c.Kind)) {
+			labels = append(labels, "oversize-frame-consumed")
+			if !isCE || !errors.Is(o.Err, &modbus.ErrPacketTooLong) {
+				return harness.Fail(desc+"client took %d bytes, more than a %s frame can hold, but reported %T %v instead of ErrPacketTooLong", o.Consumed, cli.FramingOf(c.Kind), o.Err, o.Err)
+			}
+		}
 	case "write":
 		if !isCE || !errors.Is(o.Err, xport.ErrWrite) {
 			return harness.Fail(desc+"write failure not reported as *ClientError wrapping the cause: %T %v", o.Err, o.Err)
 		}
 		if len(o.Reads) != 0 {
-			return harness.Fail(desc+"client read from the transport after a failed write")
+			return harness.Fail(desc + "client read from the transport after a failed write")
 		}
 	case "cancel-before", "cancel-in-read":
 		if !errors.Is(o.Err, context.Canceled) {
@@ -225,7 +267,7 @@ func judge(c faultCase, p prep, o cli.Outcome) harness.Result {
 		}
 	case "not-connected":
 		if len(o.Writes) != 0 || len(o.Reads) != 0 {
-			return harness.Fail(desc+"unconnected client touched a transport")
+			return harness.Fail(desc + "unconnected client touched a transport")
 		}
 		if !cli.IsSerial(c.Kind) && !errors.Is(o.Err, &modbus.ErrClientNotConnected) {
 			return harness.Fail(desc+"error is not ErrClientNotConnected: %T %v", o.Err, o.Err)
@@ -235,7 +277,7 @@ func judge(c faultCase, p prep, o cli.Outcome) harness.Result {
 		}
 	case "nil-request":
 		if len(o.Writes) != 0 || len(o.Reads) != 0 {
-			return harness.Fail(desc+"nil request caused transport I/O")
+			return harness.Fail(desc + "nil request caused transport I/O")
 		}
 		if o.Elapsed > time.Second {
 			return harness.Fail(desc+"did not fail immediately (%v)", o.Elapsed)
@@ -278,6 +320,9 @@ func genFault(t *rapid.T, kinds []string) faultCase {
 		c.ExcCode = rapid.SampledFrom([]uint8{1, 2, 3, 4, 11}).Draw(t, "exc_code")
 	}
 	c.Fault = rapid.SampledFrom(faults).Draw(t, "fault")
+	if c.Fault == "oversize-frame" {
+		c.Over = rapid.SampledFrom([]int{1, 1, 2, 3, 4, 4, 5, 6, 9, 10, 11, 12}).Draw(t, "over")
+	}
 	L := replyLen(c)
 	// faults happen strictly before the reply is complete
 	c.Prefix = rapid.IntRange(0, L-1).Draw(t, "prefix")
@@ -426,6 +471,9 @@ func TestPrefixSweep(t *testing.T) {
 							}
 							c := base
 							c.Fault, c.Prefix = fault, p
+							if fault == "oversize-frame" {
+								c.Over = 1 + idx%12
+							}
 							if p > 2 && idx%2 == 0 {
 								c.PreCuts = []int{p / 2}
 							}
